@@ -373,6 +373,7 @@ def run_case(case: dict) -> dict:
                 _ = local
         elif op[0] == "rename_values":
             before_snap = snapshot.snapshot(w)
+        w.last_passed = []
         r = ops.apply_op(w, op)
         trace.append((op[0], r[0], r[1] if r[0] == "raise" else None))
         inc(("ok_" if r[0] == "ok" else "raise_") + op[0])
@@ -440,8 +441,13 @@ def run_case(case: dict) -> dict:
                         sv.add(v.name)
             sv = seen_v.setdefault(id(g), set())
             sn = seen_n.setdefault(id(g), set())
+            # a node that the call handed to this graph - also one that was in it already (a move, or sort(), which hands
+            # every node to its graph again) - has its current names registered
+            passed_here = {id(n) for n in (w.last_passed if r[0] == "ok" else []) if n is not None and n.graph is g}
+            if passed_here:
+                inc("names_registered_by_move_or_sort", len(passed_here))
             for n in g:
-                if graph_of_node.get(id(n), "<new>") is not g:
+                if graph_of_node.get(id(n), "<new>") is not g or id(n) in passed_here:
                     if n.name:
                         sn.add(n.name)
                     for v in n.outputs:
